@@ -215,8 +215,17 @@ def rule_locate_one(ctx):
                 return x
         return None
 
+    from .c06 import _nonempty_fact
+    unguarded = None
     for p, is_ret in [(p, True) for p in rets] + [(p, False) for p in raises]:
         tests = [(a, pol) for a, pol in p.guards if T.contains(a, TOL) and a != tol_none]
+        known_nonempty = any(_nonempty_fact(a, pol) == VALUES for a, pol in p.guards)
+        known_empty = any(_nonempty_fact(a, not pol) == VALUES for a, pol in p.guards)
+        if not is_ret and not tests and known_empty:
+            ctx.holds('R2', 'locate_one tolerance: an empty axis raises IndexError (no label can be within the tolerance)')
+            continue
+        if tests and not known_nonempty and unguarded is None:
+            unguarded = p
         if len(tests) != 1:
             ctx.undecide('R2', 'locate_one tolerance branch: expected one tolerance test per path, found %d' % len(tests))
             continue
@@ -242,6 +251,10 @@ def rule_locate_one(ctx):
         else:
             ctx.holds('R2', 'locate_one tolerance: %s iff dist[argmin] > tol' % ('return' if is_ret else 'raise'))
 
+    if unguarded is not None:
+        ctx.violated('R2', fi, 'argmin over an axis that may be empty', 'with a tolerance the nearest label is taken with argmin(|values - val|) without testing that the axis has a '
+                     'label at all: on an empty axis NumPy raises ValueError ("attempt to get argmin of an empty sequence") where an absent label must raise IndexError '
+                     '(e.take(3., axis=0, tol=1), e.nloc[3.])', node=unguarded.node)
     # R4: searchsorted in locate_one only when issorted
     ev = run(ctx, fi, facts={tol_none: True})
     for p in ev.paths:
@@ -378,6 +391,8 @@ def rule_loc(ctx):
                 ok = v == VAL
                 why = 'a boolean mask must be passed through unchanged'
             elif kind == 'list+tol':
+                if v[0] == 'call' and T.dotted(v[1]) in ('np.array', 'np.asarray') and v[2] and v[2][0][0] == 'comp':
+                    v = v[2][0]            # positions collected into an (integer) array: the dtype is decided by R12
                 ok = v[0] == 'comp' and v[2][0] == 'call' and T.call_name(v[2]) == 'locate_one' and is_values(v[2][2][0]) \
                     and v[2][2][1][0] == 'elem' and v[2][2][1][1] == VAL and T.kw(v[2], 'tol') is not None \
                     and T.contains(T.kw(v[2], 'tol'), TOL) and v[3][0][1] == VAL
@@ -411,6 +426,19 @@ def rule_loc(ctx):
                 ctx.violated('R2', fi, 'loc list branch raise', 'labels that are not on the axis must raise IndexError')
             else:
                 ctx.holds('R2', 'loc list branch raises IndexError on mismatch')
+            # labels of a type that cannot be ordered against the axis' labels (1 on a str axis) make the sorted search itself raise TypeError:
+            # that is an absent label too, and the scalar spelling answers it with IndexError
+            conv = [p for p in good if any(a[0] == 'tryfail' and ('TypeError' in a[2] or a[2] in ('*', 'Exception')) for a, pol in p.guards) and list(p.calls('locate_many'))]
+            inner = ctx.fn(IDX + 'locate_many')
+            evm = run(ctx, inner, mode='join')
+            conv_inner = [p for p in raise_paths(evm) if exc_name(p.value) == 'IndexError' and any(a[0] == 'tryfail' for a, pol in p.guards)]
+            if conv or conv_inner:
+                ctx.holds('R2', 'loc list branch: a TypeError of the sorted search (labels not comparable with the axis) is answered by IndexError')
+            else:
+                lm = [e for p in ev.paths for e in p.calls('locate_many')]
+                ctx.violated('R2', fi, 'locate_many outside try / except TypeError', 'a list holding a label of a type that cannot be ordered against the axis\' labels (d[[1]] on a str axis) '
+                             'makes np.searchsorted raise TypeError, which escapes: an absent label must raise IndexError, as the scalar spelling d[1] does',
+                             node=lm[0].node if lm else fi.node)
     # the only way round the guard is mode == 'clip'
     ev = run(ctx, fi, bind={'issorted': const(False)}, oracle=lambda a, st: (
         loc_oracle('list', VAL)(a, st) if loc_oracle('list', VAL)(a, st) is not None else
@@ -913,6 +941,28 @@ def rule_empty_selection(ctx, rid='R12'):
                                      (T.dotted(e.a[1]) in ('np.asarray', 'np.array') and T.kw(e.a, 'dtype') in (('name', 'int'), const('int')))):
                 if any(a[0] == 'cmp' and a[1] == '==' and a[3] == const(0) and ('size' in T.show(a[2]) or 'len(' in T.show(a[2])) and pol is True for a, pol in e.guards):
                     retyped = True
+    # the same on the tolerance path of Axis.loc: positions collected element by element must come back as an integer array (a bare list is turned
+    # into a float64 array by NumPy when it is empty)
+    fl = ctx.fn(BASES + 'AbstractAxis.loc')
+    evl = run(ctx, fl, mode='fork', max_paths=50000)
+    nlist = 0
+    for p in ret_paths(evl):
+        v = p.value
+        if v[0] in ('comp', 'list') or (v[0] == 'call' and T.dotted(v[1]) in ('list', 'tuple')):
+            nlist += 1
+            ctx.violated(rid, fl, 'return ' + T.show(v)[:120], 'a list of labels looked up with a tolerance (.nloc / tol=) comes back as a bare Python list of positions: for an empty '
+                         'selection NumPy reads [] as a float64 index and raises IndexError (a.take([], axis=k, tol=t), a.nloc[[]]) although the same selection without '
+                         'tolerance returns the empty array', node=p.node)
+            break
+        if v[0] == 'call' and T.dotted(v[1]) in ('np.array', 'np.asarray', 'np.fromiter') and v[2] and v[2][0][0] == 'comp':
+            nlist += 1
+            dt = T.kw(v, 'dtype') or (v[2][1] if len(v[2]) > 1 else None)
+            if dt not in (('name', 'int'), const('int'), const('i'), ('attr', ('name', 'np'), 'intp'), ('attr', ('name', 'np'), 'int64')):
+                ctx.violated(rid, fl, 'return ' + T.show(v)[:120], 'positions collected element by element must be given an integer dtype (an empty collection is float64 otherwise)',
+                             node=p.node)
+                break
+    else:
+        ctx.holds(rid, 'Axis.loc: positions found with a tolerance are returned as an integer array (%d path(s))' % nlist)
     if conv is None:
         ctx.undecide(rid, '_get_indices: the np.asarray conversion of list indices was not found')
     elif retyped:
